@@ -3,10 +3,11 @@ Proof: coq/Props/C11.v (all item-definition trees, all values; on the values/typ
 Correspondence: generated DMN documents (item definitions of every kind to depth 3, over the eight simple types, with and
 without allowed values) loaded by dmntk_model::parse + ModelEvaluator::new and driven through evaluate_invocable:
  * input side  — an echo decision `e_i` returns its typed input `x_i`, so its result is what reached the decision logic;
- * output side — a decision `o_j` with a typed output variable whose logic is a literal value.
+ * output side — a decision `o_j` (and a knowledge model `b_j`, a decision service `s_j`) with a typed output variable whose logic is a literal value.
 Each case is run through the implementation, the per-copy ImplModel (var_eval / output_value) and the Spec
 (input_spec; the proved coercion laws), compared three-way as DESIGN.md §2 prescribes."""
 import json
+import os
 import re
 
 from vlib import core
@@ -15,7 +16,9 @@ from vlib.coqterm import App
 HEADER = ('From Coq Require Import List NArith Bool.\nFrom DV Require Import C16.Model C11.Model.\nImport ListNotations.\nOpen Scope N_scope.\n'
           'Definition conf_in (f : nat) (D : defs) (r : tref) (x : value) : bool :=\n'
           '  match r with RNone => true | RPrim p => is_atom p x\n'
-          '  | RNamed n => match dlookup n D with Some T => conforms f D T x | None => false end end.\n')
+          '  | RNamed n => match dlookup n D with Some T => conforms f D T x | None => false end end.\n'
+          'Definition enough_in (f : nat) (D : defs) (r : tref) : bool :=\n'
+          '  match r with RNamed n => match dlookup n D with Some T => enough f D T | None => true end | _ => true end.\n')
 FUEL = 40
 
 PR = ['string', 'number', 'boolean', 'date', 'time', 'dateTime', 'dayTimeDuration', 'yearMonthDuration']
@@ -102,6 +105,12 @@ def model_xml(m, rng):
         for v in vals:
             parts.append('<decision name="o%d" id="do%d"><variable name="o%d"%s/><literalExpression><text>%s</text></literalExpression></decision>'
                          % (j, j, j, tref_attr(r), esc(lit(v))))
+            if j % 3 == 1:      # the same result type on a knowledge model
+                parts.append('<businessKnowledgeModel name="b%d" id="db%d"><variable name="b%d"%s/><encapsulatedLogic><literalExpression><text>%s</text></literalExpression></encapsulatedLogic></businessKnowledgeModel>'
+                             % (j, j, j, tref_attr(r), esc(lit(v))))
+            if j % 3 == 2:      # ... and on a decision service over an untyped decision
+                parts.append('<decision name="u%d" id="du%d"><variable name="u%d"/><literalExpression><text>%s</text></literalExpression></decision>' % (j, j, j, esc(lit(v))))
+                parts.append('<decisionService name="s%d" id="ds%d"><variable name="s%d"%s/><outputDecision href="#du%d"/></decisionService>' % (j, j, j, tref_attr(r), j))
             j += 1
     parts.append('</definitions>')
     return ''.join(parts)
@@ -510,6 +519,12 @@ def run_models(ctx, models, tagbase='c'):
             for v in vals:
                 calls.append(['o%d' % j, '{}'])
                 idx.append(('out', j, r, v))
+                if j % 3 == 1:
+                    calls.append(['b%d' % j, '{}'])
+                    idx.append(('out-bkm', j, r, v))
+                if j % 3 == 2:
+                    calls.append(['s%d' % j, '{}'])
+                    idx.append(('out-svc', j, r, v))
                 j += 1
         reqs.append({'xml': xmls[mi], 'calls': calls})
         index.append(idx)
@@ -521,14 +536,14 @@ def run_models(ctx, models, tagbase='c'):
         for kind, i, r, v in idx:
             if kind == 'in':
                 inp = '(VCtx [(77, %s)])' % val_coq(v)
-                terms.append('(var_eval %d D%d 77 %s %s, input_spec %d D%d 77 %s %s, conf_in %d D%d %s %s)'
-                             % (FUEL, mi, tref_coq(r), inp, FUEL, mi, tref_coq(r), inp, FUEL, mi, tref_coq(r), val_coq(v)))
+                terms.append('(var_eval %d D%d 77 %s %s, input_spec %d D%d 77 %s %s, conf_in %d D%d %s %s, enough_in %d D%d %s)'
+                             % (FUEL, mi, tref_coq(r), inp, FUEL, mi, tref_coq(r), inp, FUEL, mi, tref_coq(r), val_coq(v), FUEL, mi, tref_coq(r)))
             elif kind == 'in-missing':
                 inp = '(VCtx [(78, VNull)])'
-                terms.append('(var_eval %d D%d 77 %s %s, input_spec %d D%d 77 %s %s, false)' % (FUEL, mi, tref_coq(r), inp, FUEL, mi, tref_coq(r), inp))
+                terms.append('(var_eval %d D%d 77 %s %s, input_spec %d D%d 77 %s %s, false, true)' % (FUEL, mi, tref_coq(r), inp, FUEL, mi, tref_coq(r), inp))
             else:
                 terms.append('(output_value %d D%d %s %s, var_type %d D%d %s)' % (FUEL, mi, tref_coq(r), val_coq(v), FUEL, mi, tref_coq(r)))
-    model = ctx.run_model(header, terms, shard_size=max(50, len(terms) // 16 + 1), tag=tagbase)
+    model = ctx.run_model(header, terms, shard_size=max(50, len(terms) // 16 + 1), tag='%s%d' % (tagbase, os.getpid()))
     recs, t = [], 0
     for mi, idx in enumerate(index):
         ans = impl[mi]
@@ -562,6 +577,8 @@ def judge(ctx, models, xmls, recs, stats):
         got = norm(ri['v'])
         if rec['kind'] in ('in', 'in-missing'):
             im, sp, conf = term_val(rec['model'][0]), term_val(rec['model'][1]), rec['model'][2]
+            if not rec['model'][3] and not any(b.startswith('fuel') for b in ctx.broken):
+                ctx.broken.append('fuel %d does not cover a generated type tree (C11_fuel_sufficient does not apply): %s' % (FUEL, tref_attr(r)))
             stats['in'] = stats.get('in', 0) + 1
             key = 'conforming' if conf else ('null' if got is None else 'partly-nulled')
             stats[key] = stats.get(key, 0) + 1
@@ -588,7 +605,7 @@ def judge(ctx, models, xmls, recs, stats):
                           case_of(models, xmls, rec), impl=ri, model={'impl_model': repr(im), 'spec': repr(sp)})
         else:
             om = term_val(rec['model'][0])
-            stats['out'] = stats.get('out', 0) + 1
+            stats[rec['kind']] = stats.get(rec['kind'], 0) + 1
             ci, cm = classify(got, v), classify(om, v)
             stats['out-' + ci] = stats.get('out-' + ci, 0) + 1
             if ci not in ('same', 'null'):
@@ -596,8 +613,8 @@ def judge(ctx, models, xmls, recs, stats):
             ctx.corr_checked += 1
             if ci == 'other' or got != om:
                 # output_value is proved to be identity / wrap / unwrap / null exactly as the property words it
-                ctx.violation('output variable of declared type %s: result %s was returned as %s, the property prescribes %s (%s)'
-                              % (tref_attr(r).strip() or '(none)', lit(v), json.dumps(ri['v']), lit(om) if om is None or om[0] != '?' else om, cm),
+                ctx.violation('output variable (%s) of declared type %s: result %s was returned as %s, the property prescribes %s (%s)'
+                              % (rec['kind'], tref_attr(r).strip() or '(none)', lit(v), json.dumps(ri['v']), lit(om) if om is None or om[0] != '?' else om, cm),
                               case_of(models, xmls, rec), impl=ri, model={'output_value': repr(om), 'var_type': repr(rec['model'][1])})
 
 
